@@ -372,7 +372,7 @@ Proof. destruct l; [destruct k; cbn; auto|discriminate]. Qed.
 
 Theorem step_inv c w a : Inv c w -> Inv c (step Current c w a).
 Proof.
-  intros (Hi & Hr & Hw). destruct a as [| |k]; cbn [step].
+  intros (Hi & Hr & Hw). destruct a as [| |k|]; cbn [step]; [| | |exact (conj Hi (conj Hr Hw))].
   - pose proof (step_i_frame c w) as F. cbv zeta in F. dest.
     split; [|split].
     + apply step_i_inv_i; auto. apply Hr.
@@ -659,7 +659,7 @@ Qed.
 Lemma step_handled_stable v c w a k j :
   nth_error (wr w) k = Some (WHandled j) -> nth_error (wr (step v c w a)) k = Some (WHandled j).
 Proof.
-  intros H. destruct a as [| |k']; cbn [step].
+  intros H. destruct a as [| |k'|]; cbn [step]; [| | |exact H].
   - unfold step_i. destruct (ipc w);
       repeat match goal with
              | |- context [match ?x with _ => _ end] => destruct x
@@ -821,6 +821,17 @@ Example connect_refused_example :
   wr (run Current c (sched_open_before_release 1)) = [].
 Proof. repeat split; vm_compute; reflexivity. Qed.
 
+(* ---- another connection of the same peer closing is invisible ------------------------------------ *)
+Lemma conn_close_other_inert v c s1 s2 :
+  run v c (s1 ++ ConnCloseOther :: s2) = run v c (s1 ++ s2).
+Proof. rewrite !run_app. reflexivity. Qed.
+
+Example conn_close_other_example :
+  wr (run Current ex_cfg (sched_before_env true 1)) = [WWait] /\
+  inflight (run Current ex_cfg (sched_before_env true 1)) = 1%nat /\
+  wr (run Current ex_cfg (sched_open_before_release_env true 1)) = [WHandled (proven_ident ex_ini)].
+Proof. repeat split; vm_compute; reflexivity. Qed.
+
 (* ---- the statements of Properties/C20.v, spelled out without auxiliary vocabulary -------------- *)
 Lemma good_stream_spelled c s :
   good_stream c s ->
@@ -958,7 +969,7 @@ Definition ex_case (o : list sres) (e : N) : case :=
   {| id := 0; klass := 0; nstreams := 1; ninit := 1;
      i_addr := x "1954c423a424456a2b2b319270f81eea62ecda3e"; i_type := 2; i_staked := true;
      r_addr := x "3a1f92eeedde6b66f1424b553339f32fd4afd177"; r_type := 1; r_staked := true;
-     r_ks_ok := true; connect_ok := true;
+     r_ks_ok := true; conn_close_other := false; connect_ok := true;
      ret_addr := x "3a1f92eeedde6b66f1424b553339f32fd4afd177"; ret_type := 1;
      early := e; reg_at_gate := false; outcomes := o; ga := 1 |}.
 
